@@ -9,8 +9,9 @@ Every theorem gives the exact result of running the model operator `EV.relOp fns
 (`.ok (v, st)`: value `v`, state unchanged; `.error ()`: Go panic, recovered by `Evaluate` into an error).
 None of the value results depends on `st`, so no `st.err = none` hypothesis is needed.
 Integer-valued operand = `isInt v = some a`, i.e. any of the ten Go integer kinds (`EV.isInt_eq_some`).
-Floats are outside (`Float` is opaque to the kernel).  `ifaceEq` (Go interface equality) is a `partial def` of the
-model and is treated as an uninterpreted function by `ne_is_not_eq`; no theorem here depends on what it computes. -/
+Float operands (the other numeric case) are covered by `Props/C11float.lean`: the model compares the IEEE-754 bit
+patterns (`TplModel/Exp/F64Cmp.lean`), which the kernel can unfold.  `ifaceEq` (Go interface equality) is treated as
+an uninterpreted function by `ne_is_not_eq`; no theorem here depends on what it computes. -/
 namespace C11
 open EV
 
